@@ -253,13 +253,14 @@ def rule_r4(ck, prog, rule='C08.R4', cls='sdk::metrics::AttributesHashMapWithCus
     cnt = 0
     for gf in sorted(prog.functions(cls + '::GetOrSetDefault'), key=lambda x: x.line):
         cnt += 1
-        g = Graph(prog, gf, inline=None, sync_lambdas=False)
+        # (an overload may delegate to a sibling overload: overloads of the same name are inlined)
+        g = Graph(prog, gf, inline=lambda caller, call, callee, depth, _gf=gf: callee.cls == _gf.cls and callee.name == _gf.name, sync_lambdas=False, max_depth=2)
         rd = reaching_defs(g)
         site = 'GetOrSetDefault@%d' % gf.line if False else 'GetOrSetDefault(%s)' % gf.params[0]['t'].rsplit('::', 1)[-1][:28]
         finds = g.calls('std::unordered_map::find')
         ofl = [p for p in g.points if p.n is not None and p.n['k'] == 'call' and p.n.get('ck') in guard_keys]
         ins = [p for p in g.points if p.n is not None and p.n['k'] == 'call' and p.n.get('obj') is not None and
-               access_path(gf, p.n['obj'], p.ctx) == ('this', 'hash_map_') and
+               access_path(p.f, p.n['obj'], p.ctx) == ('this', 'hash_map_') and
                strip_targs(p.n.get('c', '')).rsplit('::', 1)[-1] in ('emplace', 'operator[]', 'insert', 'try_emplace', 'insert_or_assign')]
 
         def miss_edge(a, b, lab):
@@ -271,7 +272,7 @@ def rule_r4(ck, prog, rule='C08.R4', cls='sdk::metrics::AttributesHashMapWithCus
                 ops = ([cn['obj']] if cn.get('obj') is not None else []) + cn.get('args', [])
                 names = set()
                 for o in ops:
-                    for (sf, sn, sc) in origins(g, rd, gf, o, a.ctx):
+                    for (sf, sn, sc) in origins(g, rd, lab[1], o, a.ctx):
                         names.add(strip_targs(sn.get('c', '')).rsplit('::', 1)[-1] if sn['k'] == 'call' else sn['k'])
                 if 'find' in names and 'end' in names:
                     truth = lab[2] if pol else (not lab[2])
